@@ -332,6 +332,74 @@ def rule_evict(ctx) -> None:
     ctx.floor("C15.EVICT", "recency updates (move_to_end)", n_touch, 2)
 
 
+RECENCY_OK = {"append", "remove", "popleft", "clear", "move_to_end", "popitem", "get", "keys", "items", "values", "copy", "index", "count", "pop", "setdefault", "update", "__contains__"}
+
+
+def rule_recency_ops(ctx) -> None:
+    """the recency structure (deque / OrderedDict created in __init__) of every container is only changed by operations
+    that keep 'left = least recently used, right = most recently used': append / remove(key) / popleft / move_to_end /
+    popitem(last=False) / keyed pop / clear.  A rotation is accepted only as rotate(-1) under the guard `q[0] == key`
+    (LRU -> MRU); rotate with any other argument or guard, appendleft, insert, reverse, sort, extendleft and an
+    argument-less pop() on a deque reorder or shorten it at the wrong end."""
+    n_ops = 0
+    for cq in sorted({c[0] for c in CONTAINERS}):
+        meths = ctx.prog.methods(cq)
+        init = meths.get("__init__")
+        if init is None:
+            continue
+        rec: Dict[str, str] = {}
+        for x in walk_no_defs(init.node):
+            if isinstance(x, (ast.Assign, ast.AnnAssign)) and x.value is not None and isinstance(x.value, ast.Call):
+                ctor = (dotted(x.value.func) or "").split(".")[-1]
+                if ctor in ("deque", "OrderedDict"):
+                    for t in (x.targets if isinstance(x, ast.Assign) else [x.target]):
+                        if isinstance(t, ast.Attribute) and isinstance(t.value, ast.Name) and t.value.id == "self":
+                            rec[t.attr] = ctor
+        if not rec:
+            continue
+        for mname, fn in meths.items():
+            if mname == "__init__":
+                continue
+            cfg = ctx.cfg(fn)
+            rd = ctx.rd(fn)
+            alias: Dict[str, str] = {}
+            for d in rd.all_defs:
+                if d.kind == "assign" and isinstance(d.value, ast.Attribute) and isinstance(d.value.value, ast.Name) and d.value.value.id == "self" and d.value.attr in rec:
+                    alias[d.name] = d.value.attr
+            for n in cfg.nodes:
+                for c in node_calls(n):
+                    if not isinstance(c.func, ast.Attribute):
+                        continue
+                    recv = c.func.value
+                    attr = None
+                    if isinstance(recv, ast.Attribute) and isinstance(recv.value, ast.Name) and recv.value.id == "self" and recv.attr in rec:
+                        attr = recv.attr
+                    elif isinstance(recv, ast.Name) and recv.id in alias:
+                        attr = alias[recv.id]
+                    if attr is None:
+                        continue
+                    n_ops += 1
+                    op = c.func.attr
+                    why = None
+                    if op == "rotate":
+                        arg = c.args[0] if c.args else None
+                        minus1 = isinstance(arg, ast.UnaryOp) and isinstance(arg.op, ast.USub) and isinstance(arg.operand, ast.Constant) and arg.operand.value == 1
+                        names = {f"self.{attr}"} | {a for a, t in alias.items() if t == attr}
+                        guard = any(pol and any(t.replace(" ", "").startswith(f"{nm}[0]==") for nm in names) for t, pol in cfg.facts(n))
+                        if not (minus1 and guard):
+                            why = f"`{src(c)}` rotates the recency queue" + ("" if minus1 else " to the right (MRU -> LRU end)") + ("" if guard else " without the guard `q[0] == key`")
+                    elif op in ("appendleft", "extendleft", "insert", "reverse", "sort"):
+                        why = f"`{src(c)[:40]}` reorders / inserts at the LRU end"
+                    elif op == "pop" and rec[attr] == "deque" and not c.args:
+                        why = f"`{src(c)}` removes the MOST recently used entry"
+                    elif op not in RECENCY_OK:
+                        why = f"`{src(c)[:40]}`: operation not known to preserve the LRU -> MRU order"
+                    if why:
+                        ctx.violation("C15.EVICT", f"{fn.qual}/recency-op:{op}", fn.loc(c), why + ": the next eviction no longer removes the least recently used key")
+    ctx.floor("C15.EVICT", "operations on recency structures", n_ops, 12)
+    ctx.holds("C15.EVICT", "containers/recency-ops", "clematis/engine", f"{n_ops} operations on deque / OrderedDict recency structures keep the LRU(left) -> MRU(right) order")
+
+
 # ------------------------------------------------------------------- ACCT
 def rule_acct(ctx) -> None:
     cq = "clematis.engine.util.lru_bytes:LRUBytes"
@@ -479,5 +547,6 @@ def run(ctx) -> None:
     rule_clock(ctx)
     rule_ttl_stamp(ctx)
     rule_evict(ctx)
+    rule_recency_ops(ctx)
     rule_acct(ctx)
     rule_merge(ctx)
